@@ -13,6 +13,7 @@ pickle); document edits between runs.  Oracle: reference model of what each
 """
 import os
 import pickle
+import re
 import shutil
 
 from .. import core
@@ -81,7 +82,10 @@ def docname(i, fancy=False):
 
 def doc_of_label(lab):
     """'d<i>L<k>' -> i (labels are globally distinct, so a label identifies its document)"""
-    return int(lab[1:].split('L')[0])
+    m = re.match(r'd(\d+)L(\d+)', lab)
+    if m is None:
+        raise ValueError(lab)
+    return int(m.group(1))
 
 
 def xr_prefix(mode, j):
@@ -103,7 +107,7 @@ def doc_source(i, st, m, use_xr, fancy_names=False):
                 lines.append('\\externaldocument%s{%s}%s' % ('[%s]' % pre if pre else '', docname(j, fancy_names), '[%s]' % url if url else ''))
     lines.append('\\begin{document}')
     for kind, k, ver in st['items']:
-        lab = 'd%dL%d' % (i, k)
+        lab = 'd%dL%d%s' % (i, k, st.get('lsuf', ''))
         if kind == 'section':
             deco = ['', ' caf\\\'e \\textbf{bold}', ' $x^2$ math', ' na\u00efve \u00fc', ' a \\& b'][(k + ver) % 5] if st.get('fancy') else ''
             lines.append('\\section{T%dx%dv%d%s}\\label{%s}' % (i, k, ver, deco, lab))
@@ -127,7 +131,7 @@ def doc_source(i, st, m, use_xr, fancy_names=False):
         lines.append('\\section{Common c%d}\\label{%s}' % (i, COMMON))
         lines.append('Body c%d.' % i)
     for (j, k) in st['refs']:
-        lines.append('See r%dx%dx%d \\ref{%sd%dL%d}.' % (i, j, k, xr_prefix(use_xr, j) if use_xr else '', j, k))
+        lines.append('See r%dx%dx%d \\ref{%sd%dL%d%s}.' % (i, j, k, xr_prefix(use_xr, j) if use_xr else '', j, k, st.get('lsuf', '')))
     lines.append('\\end{document}')
     return '\n'.join(lines) + '\n'
 
@@ -167,6 +171,9 @@ def generate(seed, tier):
     if R('common').random() < 0.3:
         for d in docs:
             d['common'] = True
+    lsuf = R('labels').choice(['', '', '', '', ':\u00e9', '.v2', ' x', '-\u00e9(1)'])      # punctuation, blanks, non-ASCII in label names
+    for d in docs:
+        d['lsuf'] = lsuf
     for i in range(m):
         for j in range(m):
             if j != i:
@@ -453,7 +460,7 @@ class Sim(object):
         self.xr = sw.get('xr', False)
         self.fancy = sw.get('fancy_names') or False
         self.root = root
-        self.docs = [dict(items=[list(x) for x in d['items']], refs=[list(x) for x in d['refs']], next=d['next'], fancy=d.get('fancy', False), common=bool(d.get('common')))
+        self.docs = [dict(items=[list(x) for x in d['items']], refs=[list(x) for x in d['refs']], next=d['next'], fancy=d.get('fancy', False), common=bool(d.get('common')), lsuf=d.get('lsuf', ''))
                      for d in sw['docs']]
         # model: per file -> {'state': 'clean'|'dirty'|'absent', 'cands': [blocks...], 'fuzzy': bool}
         # blocks = {R: {label: (ref, title, url)}}
@@ -839,7 +846,7 @@ class Sim(object):
                     return
                 self.info['common_label_saved'] = 1
                 continue
-            kk = int(lab.split('L')[1])
+            kk = int(re.match(r'd(\d+)L(\d+)', lab).group(2))
             if kk in exp:
                 num, ver, kind = exp[kk]
                 if num is None:
@@ -847,7 +854,7 @@ class Sim(object):
                 if v['ref'] is None or num not in v['ref']:
                     self.violation('C20|save|number', {'label': lab, 'saved': v, 'expected': num})
                     return
-        if sorted(saved) != sorted(['d%dL%d' % (i, it[1]) for it in self.docs[i]['items']] + ([COMMON] if self.docs[i].get('common') else [])):
+        if sorted(saved) != sorted(['d%dL%d%s' % (i, it[1], self.docs[i].get('lsuf', '')) for it in self.docs[i]['items']] + ([COMMON] if self.docs[i].get('common') else [])):
             self.violation('C20|save|labelset', {'saved': sorted(saved), 'doc': self.docs[i]['items']})
             return
         # I2 / I3 / I4: what this job restored from the other documents' files
